@@ -166,6 +166,37 @@ Theorem C13_span_fields_name_every_field : forall s,
 Proof. intros s. split; [apply span_fields_names_every_field | apply pretty_span_fields_names_every_field]. Qed.
 Print Assumptions C13_span_fields_name_every_field.
 
+(** ... also when several threads [record] on the same span at overlapping times: [on_record] holds the span's
+    extensions write lock across its read - append - store (read from the source on every run), so for EVERY number of
+    threads and EVERY schedule the stored fields are the groups of the calls that have returned, appended in the order
+    they returned — no recorded field is lost ([add]: any field formatter's [add_fields]).  The read-copy-replace form
+    loses an update ([C13_record_lost_update_refuted]).  JSON's stored fields (merge, last write wins on re-record) are
+    C14's: [C14_concurrent_no_lost_field], [C14_last_write_spec], [C14_history_fields]. *)
+Theorem C13_concurrent_records_keep_every_field : forall add gs init sched,
+  let s := rec_run true add gs init sched in
+  r_stored s = fold_left add (map gs (r_done s)) init /\ NoDup (r_done s).
+Proof. exact record_atomic_keeps_every_group. Qed.
+Print Assumptions C13_concurrent_records_keep_every_field.
+
+Theorem C13_concurrent_records_name_every_field : forall gs init sched,
+  let s := rec_run true add_group gs init sched in
+  r_stored s = init ++ concat (map render_ftok (groups_ftoks init (map gs (r_done s))))
+  /\ ftok_fields (groups_ftoks init (map gs (r_done s))) = concat (map gs (r_done s)).
+Proof. exact record_atomic_names_every_field. Qed.
+Print Assumptions C13_concurrent_records_name_every_field.
+
+Theorem C13_on_record_atomic_in_tree : Gen_fmtbuf.on_record_atomic = true.
+Proof. reflexivity. Qed.
+Print Assumptions C13_on_record_atomic_in_tree.
+
+Theorem C13_record_lost_update_refuted :
+  let gs := fun t => match t with O => [(str "a", str "1")] | _ => [(str "b", str "2")] end in
+  r_stored (rec_run false add_group gs [] [0; 1; 0; 1]%nat) = str "b=2"
+  /\ r_done (rec_run false add_group gs [] [0; 1; 0; 1]%nat) = [0; 1]%nat
+  /\ r_stored (rec_run true add_group gs [] [0; 1; 0; 1]%nat) = str "a=1 b=2".
+Proof. exact record_lost_update_without_lock. Qed.
+Print Assumptions C13_record_lost_update_refuted.
+
 (** Exactly one line (the property names full, compact and JSON for this clause): no input text with a raw newline
     (the property's exclusion) -> the record is [body ++ "\n"] with no newline in [body]. *)
 Theorem C13_single_line_full_compact : forall f o th m sc fl fs, ok_fields fl = Some fs ->
